@@ -618,6 +618,16 @@ func elScenarios() []elHist {
 	add("scenario.negative-expiry", elCfg{-1, 40, 8}, P(1, A4), P(2, A4), P(3, B4), D(4))
 	add("scenario.negative-line-limit", elCfg{2, 40, -1}, P(1, A4))
 	add("scenario.empty", elCfg{2, 40, 8}, D(1), E(5), D(2))
+	// one line repeated far more often than any plausible per-line cap on timestamps, then another line,
+	// then the first once more: the dump order and the next eviction follow the LAST update
+	{
+		var ops []elOp
+		for i := 0; i < 260; i++ {
+			ops = append(ops, P(1+i/90, A4))
+		}
+		ops = append(ops, P(4, B4), P(5, A4), D(6), P(7, C4), D(8))
+		add("scenario.many-repeats", elCfg{30, 16, 8}, ops...)
+	}
 	return hs
 }
 
